@@ -104,6 +104,21 @@ Theorem C09_all_protocols :
 Proof. exact C09Facts.all_protocols. Qed.
 Print Assumptions C09_all_protocols.
 
+(* abstracts: with both options off nothing but the entries is written; with abstract_entries on
+   every entry is followed by the lines of ITS OWN abstract and by nothing else *)
+Theorem C09_writedir_abstracts_off :
+  forall pre post render listed es,
+    writedir_abs false false pre post render listed es = writedir pre post render es.
+Proof. exact C09Facts.writedir_abs_off. Qed.
+Print Assumptions C09_writedir_abstracts_off.
+
+Theorem C09_writedir_entry_abstracts :
+  forall render es out,
+    writedir_abs_loop render true out es =
+    option_map (fun items => out ++ concat items) (sequence (map (entry_with_abstract render) es)).
+Proof. exact C09Facts.writedir_abs_loop_on. Qed.
+Print Assumptions C09_writedir_entry_abstracts.
+
 (* Gopher0: the menu is the concatenation of one rfc1436 line per gophermap line
    (every entry has a name, so renderobjinfo cannot fail) *)
 Theorem C09_gopher0_menu :
